@@ -163,6 +163,7 @@ class DropReplayer:
         tag = "drop:p=%s" % Fraction(consts["PDrop"][0], consts["PDrop"][1])
         path = []
         x = y = None
+        passes = []          # (input, output) of every forward pass: each keeps its own graph
         for i, call in enumerate(hist):
             a = call["a"]
             if a in ("train", "eval"):
@@ -198,29 +199,33 @@ class DropReplayer:
                     div.append(("mask", "%s:no-mask-explains-output:%s" % (tag, mode), "input %s -> output %s is not x*m/(1-p) for any admissible mask m (%s mode)" % (xv, got.tolist(), mode)))
                     break
                 path.append(match)
+                passes.append([x, y])
             elif a == "bwd":
-                if y is None:
+                k = call.get("k", len(passes))
+                if k < 1 or k > len(passes) or passes[k - 1][1] is None:
                     break
+                xk, yk = passes[k - 1]
                 gv = consts["GradsIn"][call["g"] - 1]
-                if len(gv) != x.data.shape[0] or not y.requires_grad:
-                    if not y.requires_grad:
+                if len(gv) != xk.data.shape[0] or not yk.requires_grad:
+                    if not yk.requires_grad:
                         div.append(("mask", tag + ":output-not-tracked", "output of Dropout does not require grad"))
                     break
-                x.zero_()
+                xk.zero_()
                 with repo.quiet():
-                    y.backward(sg.Tensor(np.array(gv, dtype=self.dtype)))
-                if x.grad is not None and x.grad.data.dtype != self.dtype:
-                    div.append(("dtype", "%s:grad-dtype:%s" % (tag, self.dtype), "input gradient of Dropout(p=%r) on %s input is %s" % (p, self.dtype, x.grad.data.dtype)))
+                    yk.backward(sg.Tensor(np.array(gv, dtype=self.dtype)))
+                if xk.grad is not None and xk.grad.data.dtype != self.dtype:
+                    div.append(("dtype", "%s:grad-dtype:%s" % (tag, self.dtype), "input gradient of Dropout(p=%r) on %s input is %s" % (p, self.dtype, xk.grad.data.dtype)))
                 path.append(call)
                 obs = expected_by_key(prefix_key(path))
                 if obs is None:
                     break
                 want = np.array([qf(q) for q in obs["out"][0]])
-                got = x.grad.data.astype(np.float64)
+                got = xk.grad.data.astype(np.float64)
                 if not np.allclose(got, want, rtol=1e-6, atol=1e-6):
-                    div.append(("mask", "%s:backward-other-mask:%s" % (tag, "train" if layer.training else "eval"), "input gradient %s, specification (same mask as forward) %s" % (got.tolist(), want.tolist())))
+                    div.append(("mask", "%s:backward-other-mask:%s:%s" % (tag, "train" if layer.training else "eval", "last-pass" if k == len(passes) else "earlier-pass"),
+                                "input gradient of forward pass %d of %d: %s, specification (the mask of that pass) %s" % (k, len(passes), got.tolist(), want.tolist())))
                     break
-                y = None  # the graph has been used
+                passes[k - 1][1] = None  # that graph has been used
         return div
 
 
